@@ -26,7 +26,7 @@ RULE = (
 )
 ASSUMPTIONS = [
     "history part: all ordered pairs (thorough: triples) of a small call alphabet chosen to collide in every shape-like cache key, each history in a forked child, compared with a fresh-process result",
-    "image height and width are multiples of the output stride (the property's shape clause H/stride is only defined there)",
+    "image height and width are multiples of the output stride, plus a few sizes that are not (2 in quick, 6 in thorough): there the shape clause H/stride accepts floor or ceil and every cell of the returned grid is checked against the Gaussian at (col*stride, row*stride)",
     "coordinates come from the alphabet {NaN,-3,-0.5,0,0.25,1,2.5,size-1,size-0.5,size+2,1e4,+inf} per axis (thorough: plus the "
     "quarter-pixel lattice -1..size+0.5); larger shapes use the reduced keypoint alphabets R12/R6/R5/R4/R3 defined in the module",
     "rows beyond num_instances are all-NaN padding (what the pipelines produce); num_instances = number of non-padding rows",
@@ -253,9 +253,9 @@ def normalise(variant, samp):
     return samp
 
 
-def reference(norm, cfg):
+def reference(norm, cfg, hw=None):
     H, W, s, sigma = cfg
-    h, w = H // s, W // s
+    h, w = hw if hw is not None else (H // s, W // s)
     gx = np.arange(w, dtype=np.float64) * s
     gy = np.arange(h, dtype=np.float64) * s
     x = norm[..., 0][..., None, None]
@@ -280,7 +280,7 @@ def nontrivial_mask(norm, cfg):
 
 def check(out, norm, cfg):
     """out (B,S,C,h,w) float32, norm (B,S,Ap,C,2) float64 -> {row: message}."""
-    ref, d2, fin = reference(norm, cfg)
+    ref, d2, fin = reference(norm, cfg, tuple(out.shape[-2:]))  # the stride grid with as many cells as the output has
     B = out.shape[0]
     o = out.astype(np.float64)
     msgs = {}
@@ -351,8 +351,12 @@ def evaluate(variant, cfg, samp, A, results):
             msgs[b] = issue or "no output"
             continue
         exp = expected_shape(variant, samp[b], cfg)
-        if tuple(out.shape) != exp:
-            msgs[b] = f"[shape] output shape {tuple(out.shape)} expected {exp}"
+        H_, W_, s_, _ = cfg
+        # a size that is not a multiple of the stride: "H/stride" is read as either floor or ceil (every cell of the
+        # returned grid is then checked against the Gaussian at (col*stride, row*stride))
+        alt = exp[:2] + (-(-H_ // s_), -(-W_ // s_))
+        if tuple(out.shape) != exp and tuple(out.shape) != alt:
+            msgs[b] = f"[shape] output shape {tuple(out.shape)} expected {exp}" + ("" if alt == exp else f" or {alt}")
             continue
         if out.dtype != np.float32:
             msgs[b] = f"[dtype] output dtype {out.dtype}"
@@ -503,11 +507,13 @@ def plan(tier):
     if tier == "quick":
         sizes = [(4, 4), (8, 8), (4, 8), (12, 4), (8, 12)]
         core_cfgs = [(H, W, s) for (H, W) in sizes for s in (1, 2, 4)]
+        core_cfgs += [(6, 10, 4), (7, 5, 2)]  # sizes that are not multiples of the stride
         heavy_cfgs, nine_cfgs = [], []
     else:
         sizes = [(H, W) for H in (4, 8, 12) for W in (4, 8, 12)]
         core_cfgs = [(H, W, s) for (H, W) in sizes for s in (1, 2, 4)]
         core_cfgs += [(H, W, 8) for (H, W) in [(8, 8), (8, 16), (16, 8), (24, 16), (16, 24)]]
+        core_cfgs += [(6, 10, 4), (7, 5, 2), (9, 12, 4), (10, 7, 4), (5, 5, 2), (12, 20, 8)]  # not multiples of the stride
         heavy_cfgs = [(H, W, s) for (H, W) in [(8, 12), (12, 8)] for s in (1, 2, 4)] + [(16, 24, 8)]
         nine_cfgs = heavy_cfgs
     for (H, W, s) in core_cfgs:
